@@ -13,7 +13,8 @@
     ! ok | ! bad <reason>                          verdict of a relation check (sort)
     ?                                              not decided by the manual / not modelled
     bad-line
-  Second column for find: `~ <what Model.StrLib (mirror of matching.go) predicts>` appended after a tab.
+  Level B, for sub / byte / plain find: `<tab>~ = <what Model.StrLib (mirror of stringlib.go / matching.go over the
+  regenerated StringNormPos/maxpos/minpos) computes>` is appended; checks/c19.py compares golua with it too.
 -/
 import Oracle.Proto
 import GoluaVerif.Spec.Num
@@ -140,7 +141,7 @@ def strFn (limited : Bool) (fn : String) (a : Array Arg) : String :=
       let spec := StrLib.sub s i j
       -- level B: the mirror of stringlib.go over the regenerated leaf functions must agree (Props.C19.gosub_eq_spec)
       let model := Model.StrLib.goSub s (toI64 i) (toI64 j)
-      if spec == model then okStr spec else okStr spec ++ "\t~ " ++ okStr model
+      okStr spec ++ "\t~ " ++ okStr model
     | .err, _, _ | _, .err, _ | _, _, .err => "= err"
     | _, _, _ => "?"
   | "byte" => match argStr (arg 0), argOptInt (arg 1) 1 with
@@ -154,7 +155,7 @@ def strFn (limited : Bool) (fn : String) (a : Array Arg) : String :=
         let spec := StrLib.byte s i j
         let model := Model.StrLib.goByte s (toI64 i) (j.map toI64)
         let out := okVals (spec.map fun c => "i" ++ toString c)
-        if spec == model then out else out ++ "\t~ " ++ okVals (model.map fun c => "i" ++ toString c)
+        out ++ "\t~ " ++ okVals (model.map fun c => "i" ++ toString c)
       | .err => "= err"
       | .open_ => "?"
     | .err, _ | _, .err => "= err"
@@ -186,6 +187,7 @@ def strFn (limited : Bool) (fn : String) (a : Array Arg) : String :=
           | none => okVals ["n"]
         let spec := (StrLib.findPlain s p init).map fun (x, y) => ((x : Int), (y : Int))
         -- level B: Model.StrLib.goFindPlain mirrors the branch `plain || len(ptn) == 0` of matching.go
+        -- (Props.C19.find_plain_model_eq_spec)
         if truthy (arg 3) || p.isEmpty then
           render spec ++ "\t~ " ++ render (Model.StrLib.goFindPlain s p (toI64 init))
         else render spec
@@ -332,10 +334,7 @@ def tabFn (c : TCall) : String :=
         match arg 4, c.t2 with
         | none, _ | some .t1, _ =>
           (match TabLib.movePlan f e t true with
-          | .error er =>
-            -- the errors for over-long ranges are ltablib.c's, not the manual's; for t = f on one table the
-            -- (infeasible) assignment a[f..e] = a[f..e] is also accepted as a no-op
-            if f == t then errStr er ++ " | ok T ; " ++ showTab st else errStr er
+          | .error er => errStr er
           | .ok _ =>
             if big then "?" else
             match TabLib.move mstore st f e t with
